@@ -864,15 +864,48 @@ def by_name_layer(ctx, p, rng):
         ctx.disagree("by-name API", {"detail": "panoptica.utils.config no longer uses config_by_name / config_dir_by_name"})
         return
     with tempfile.TemporaryDirectory(prefix="c19n_") as tmp:
+        orig_dir = saved["config_dir_by_name"]
+
         def dir_by_name(name):
-            return Path(tmp), name if name.endswith(".yaml") else name + ".yaml"
+            # the package's own file-name logic, only the directory is redirected to the scratch directory
+            return Path(tmp), orig_dir(name)[1]
 
         def by_name(name):
             d, n = dir_by_name(name)
-            assert (d / n).exists(), f"no config {n}"
-            return d / n
+            found = sorted(d.glob(f"**/{n}"))
+            assert len(found) == 1, f"did not find exactly one config {n}"
+            return found[0]
         C.config_dir_by_name, C.config_by_name = dir_by_name, by_name
         try:
+            # several configurations saved under different names first (names with dots, dashes, version-like suffixes), loaded afterwards
+            for seq in range(ctx.scale(4, 30)):
+                names = rng.sample(["sweep_iou_0.25", "sweep_iou_0.5", "sweep_iou_0.75", "release-1.0", "release-1.1", "plain", "v2.final",
+                                    "a.b.c", "model.v1", "model.v2"], 4)
+                saved_evs = []
+                for nm in names:
+                    spec = random_spec(rng)
+                    try:
+                        with quiet():
+                            ev = build_evaluator(p, spec)
+                            ev.save_to_config_by_name(f"{nm}_{seq}" if "." not in nm else f"s{seq}_{nm}")
+                    except Exception:  # noqa
+                        continue
+                    saved_evs.append((f"{nm}_{seq}" if "." not in nm else f"s{seq}_{nm}", spec, ev))
+                for nm, spec, ev in saved_evs:
+                    ctx.count({"by_name_sweep": nm, "spec": spec}, True)
+                    ctx.bump("by-name, several names saved then loaded")
+                    try:
+                        with quiet():
+                            back = p.Panoptica_Evaluator.load_from_config_name(nm)
+                    except Exception as e:  # noqa
+                        ctx.violation(f"load_from_config_name({nm!r}) raised {type(e).__name__}: {str(e)[:160]}",
+                                      {"kind": "by-name-sweep", "names": [n for n, _, _ in saved_evs], "specs": [sp for _, sp, _ in saved_evs], "failing": nm})
+                        break
+                    d = first_diff(snap(ev), snap(back))
+                    if d:
+                        ctx.violation(f"load_from_config_name({nm!r}) returned other settings than were saved under that name: {d}",
+                                      {"kind": "by-name-sweep", "names": [n for n, _, _ in saved_evs], "specs": [sp for _, sp, _ in saved_evs], "failing": nm})
+                        break
             for seq in range(ctx.scale(6, 40)):
                 name = f"reused_{seq}"
                 specs = [random_spec(rng) for _ in range(3)]
@@ -911,9 +944,24 @@ def replay_by_name(d):
     saved = {n: getattr(C, n) for n in ("config_by_name", "config_dir_by_name")}
     rc = 0
     with tempfile.TemporaryDirectory(prefix="c19n_") as tmp:
-        C.config_dir_by_name = lambda name: (Path(tmp), name if name.endswith(".yaml") else name + ".yaml")
-        C.config_by_name = lambda name: Path(tmp) / (name if name.endswith(".yaml") else name + ".yaml")
+        orig_dir = saved["config_dir_by_name"]
+        C.config_dir_by_name = lambda name: (Path(tmp), orig_dir(name)[1])
+        C.config_by_name = lambda name: Path(tmp) / orig_dir(name)[1]
         try:
+            if d.get("kind") == "by-name-sweep":
+                evs = []
+                for nm, spec in zip(d["names"], d["specs"]):
+                    with quiet():
+                        ev = build_evaluator(p, spec)
+                        ev.save_to_config_by_name(nm)
+                    evs.append((nm, ev))
+                for nm, ev in evs:
+                    with quiet():
+                        back = p.Panoptica_Evaluator.load_from_config_name(nm)
+                    diff = first_diff(snap(ev), snap(back))
+                    print(f"saved under {nm!r}, loaded by that name:", "identical settings" if not diff else "DIFFERS: " + str(diff))
+                    rc |= bool(diff)
+                return rc
             for i, spec in enumerate(d["specs"]):
                 with quiet():
                     ev = build_evaluator(p, spec)
@@ -1058,7 +1106,7 @@ def replay(path):
     d = json.loads(open(path).read())
     rc = 0
     with tempfile.TemporaryDirectory(prefix="c19r_") as tmp:
-        if d.get("kind") == "by-name":
+        if d.get("kind") in ("by-name", "by-name-sweep"):
             return replay_by_name(d)
         if d.get("kind") == "shipped":
             out = Outcome()
